@@ -218,12 +218,10 @@ impl<'a> AtRuleDest<'a> {
 
 impl Drop for AtRuleDest<'_> {
     fn drop(&mut self) {
-        let mut body = std::mem::take(&mut self.body);
+        commit_rule(&mut self.rule, &mut self.body);
+        let body = std::mem::take(&mut self.body);
         let name = std::mem::take(&mut self.name);
         let args = std::mem::replace(&mut self.args, Value::Null);
-        if let Some(rule) = self.rule.take() {
-            body.insert(0, rule.into());
-        }
         let result = AtRule::new(name, args, Some(body));
         if let Err(err) = self.parent.push_item(result.into()) {
             eprintln!("Error ending AtRuleDest: {err}");
@@ -281,7 +279,7 @@ impl CssDestination for AtRuleDest<'_> {
     }
 
     fn push_item(&mut self, item: Item) -> Result {
-        self.body.push(match item {
+        let item = match item {
             Item::Comment(c) => c.into(),
             Item::Import(i) => i.into(),
             Item::Rule(r) => r.into(),
@@ -290,7 +288,9 @@ impl CssDestination for AtRuleDest<'_> {
             Item::MediaRule(r) => r.into(),
             Item::AtRule(r) => r.into(),
             Item::Separator => return Ok(()), // Not pushed?
-        });
+        };
+        commit_rule(&mut self.rule, &mut self.body);
+        self.body.push(item);
         Ok(())
     }
 
@@ -337,14 +337,10 @@ impl<'a> AtMediaDest<'a> {
 
 impl Drop for AtMediaDest<'_> {
     fn drop(&mut self) {
-        let mut body = std::mem::take(&mut self.body);
+        commit_rule(&mut self.rule, &mut self.body);
+        let body = std::mem::take(&mut self.body);
         let args =
             std::mem::replace(&mut self.args, MediaArgs::Name(String::new()));
-        if let Some(rule) = self.rule.take()
-            && !rule.body.is_empty()
-        {
-            body.insert(0, rule.into());
-        }
         let result = MediaRule::new(args, body);
         if let Err(err) = self.parent.push_item(result.into()) {
             eprintln!("Error ending AtRuleDest: {err}");
@@ -404,7 +400,7 @@ impl CssDestination for AtMediaDest<'_> {
     }
 
     fn push_item(&mut self, item: Item) -> Result {
-        self.body.push(match item {
+        let item = match item {
             Item::Comment(c) => c.into(),
             Item::Import(i) => i.into(),
             Item::Rule(r) => r.into(),
@@ -414,7 +410,9 @@ impl CssDestination for AtMediaDest<'_> {
             Item::MediaRule(r) => r.into(),
             Item::AtRule(r) => r.into(),
             Item::Separator => return Ok(()), // Not pushed?
-        });
+        };
+        commit_rule(&mut self.rule, &mut self.body);
+        self.body.push(item);
         Ok(())
     }
 
@@ -439,6 +437,17 @@ impl CssDestination for AtMediaDest<'_> {
         } else {
             Err(Invalid::GlobalCustomProperty)
         }
+    }
+}
+
+/// Put what is collected so far for the rule enclosing an at-rule in the
+/// body of the at-rule, so that what comes next is written after it.
+fn commit_rule(rule: &mut Option<Rule>, body: &mut Vec<AtRuleBodyItem>) {
+    if let Some(rule) = rule
+        && !rule.body.is_empty()
+    {
+        let next = Rule::new(rule.selectors.clone());
+        body.push(std::mem::replace(rule, next).into());
     }
 }
 
